@@ -8,6 +8,8 @@ pub trait DynFamily: Sync {
     fn budget(&self, tier: Tier, property: &str) -> u64;
     fn run(&self, cfg: &RunCfg) -> Agg;
     fn replay(&self, scn: &Value) -> Result<RunOut, String>;
+    /// execute a base scenario with its whole enumerated neighbourhood (used to replay hangs)
+    fn replay_base(&self, scn: &Value) -> Result<usize, String>;
     fn minimise(&self, scn: &Value, v: &Violation, max_exec: usize) -> Result<(Value, Violation, u64, usize), String>;
     fn real_components(&self) -> Vec<&'static str>;
     fn simulated_components(&self) -> Vec<&'static str>;
@@ -31,6 +33,12 @@ impl<F: Family> DynFamily for F {
     fn replay(&self, scn: &Value) -> Result<RunOut, String> {
         let s: F::Scenario = serde_json::from_value(scn.clone()).map_err(|e| format!("scenario does not parse: {}", e))?;
         Ok(self.execute(&s))
+    }
+    fn replay_base(&self, scn: &Value) -> Result<usize, String> {
+        let s: F::Scenario = serde_json::from_value(scn.clone()).map_err(|e| format!("scenario does not parse: {}", e))?;
+        let mut n = 0;
+        self.execute_all(&s, &mut |_, _| n += 1);
+        Ok(n)
     }
     fn minimise(&self, scn: &Value, v: &Violation, max_exec: usize) -> Result<(Value, Violation, u64, usize), String> {
         let s: F::Scenario = serde_json::from_value(scn.clone()).map_err(|e| format!("scenario does not parse: {}", e))?;
